@@ -351,6 +351,12 @@ func c05Param(r *core.Run, fn *core.FuncInfo) {
 	// a struct whose field carries that json name; the marshal may sit in a helper
 	originFollowSingle = true
 	ad := origin(owner, litField(cl, "ApplicationData"), 6)
+	if owner != fn && strings.Contains(ad, "param:") {
+		// the literal is written by a constructor that is handed the encoded text: in the registration step's terms
+		originFollowHelpers = true
+		ad = originViaStr(fn, owner, ad, 6)
+		originFollowHelpers = false
+	}
 	originFollowSingle = false
 	acName := ""
 	if c, ok := w.Lookup("pkg/constant", "ActionContext").(*types.Const); ok && c.Val().Kind() == constant.String {
@@ -360,9 +366,14 @@ func c05Param(r *core.Run, fn *core.FuncInfo) {
 	var acValue ast.Expr // the expression stored under the ActionContext key
 	var acFn *core.FuncInfo
 	scan := []*core.FuncInfo{owner}
-	for _, cs := range w.Calls(owner) {
-		if h := w.Info(cs.Static); h != nil && h.Pkg == owner.Pkg && h != owner {
-			scan = append(scan, h)
+	for _, top := range []*core.FuncInfo{owner, fn} {
+		if top != owner {
+			scan = append(scan, top)
+		}
+		for _, cs := range w.Calls(top) {
+			if h := w.Info(cs.Static); h != nil && h.Pkg == owner.Pkg && h != owner {
+				scan = append(scan, h)
+			}
 		}
 	}
 	for _, g := range dedupFns(scan) {
@@ -418,6 +429,10 @@ func c05Param(r *core.Run, fn *core.FuncInfo) {
 	tagged := false
 	if okAD && acValue != nil {
 		avo := originViaStr(owner, acFn, origin(acFn, acValue, 5), 5)
+		if owner != fn {
+			// (the marshal helper is called by the registration step itself, not by the request's constructor)
+			avo += " | " + originViaStr(fn, acFn, origin(acFn, acValue, 5), 5)
+		}
 		for _, g := range dedupFns(append([]*core.FuncInfo{fn, owner}, scan...)) {
 			ginfo := g.Pkg.TypesInfo
 			ast.Inspect(g.Decl.Body, func(x ast.Node) bool {
